@@ -192,13 +192,7 @@ func (e *EvalBinaryNode) EvalString(scope *Scope, executionState ExecutionState)
 
 // EvalBool executes the expression based on eval bool
 func (e *EvalBinaryNode) EvalBool(scope *Scope, executionState ExecutionState) (bool, error) {
-	var result resultContainer
-	var err *ErrSide
-	if e.leftEvaluator.IsDynamic() || e.rightEvaluator.IsDynamic() {
-		result, err = e.evaluateDynamicNode(scope, executionState, e.leftEvaluator, e.rightEvaluator)
-	} else {
-		result, err = e.eval(scope, executionState)
-	}
+	result, err := e.eval(scope, executionState)
 	if err != nil {
 		return false, err.error
 	}
@@ -246,7 +240,21 @@ func (e *EvalBinaryNode) EvalInt(scope *Scope, executionState ExecutionState) (i
 
 }
 
+// eval evaluates the node. The specialisation of a node with a dynamic operand is only valid for the
+// operand types it was chosen for, so such a node specialises again from the current operand types on
+// every evaluation (for every requested result type, as EvalBool always did). Reusing the function
+// chosen for an earlier point left the node without any function after one ill-typed point
+// ("mismatched type ... got int + int" for ever) and evaluated a stateful left operand twice when only
+// the type of the right operand had changed.
 func (e *EvalBinaryNode) eval(scope *Scope, executionState ExecutionState) (resultContainer, *ErrSide) {
+	if e.leftEvaluator.IsDynamic() || e.rightEvaluator.IsDynamic() {
+		return e.evaluateDynamicNode(scope, executionState, e.leftEvaluator, e.rightEvaluator)
+	}
+	return e.evalSpecialized(scope, executionState)
+}
+
+// evalSpecialized runs the evaluation function the node is currently specialised to.
+func (e *EvalBinaryNode) evalSpecialized(scope *Scope, executionState ExecutionState) (resultContainer, *ErrSide) {
 	if e.evaluationFn == nil {
 		err := e.determineError(scope, executionState)
 		return boolFalseResultContainer, &ErrSide{error: err}
@@ -277,7 +285,7 @@ func (e *EvalBinaryNode) eval(scope *Scope, executionState ExecutionState) (resu
 			}
 
 			// try again
-			return e.eval(scope, executionState)
+			return e.evalSpecialized(scope, executionState)
 		}
 	}
 
@@ -310,7 +318,7 @@ func (e *EvalBinaryNode) evaluateDynamicNode(scope *Scope, executionState Execut
 
 	e.evaluationFn = e.lookupEvaluationFn()
 
-	return e.eval(scope, executionState)
+	return e.evalSpecialized(scope, executionState)
 }
 
 // Return an understandable error which is most specific to the issue.
